@@ -16,6 +16,12 @@ static void __CPROVER_assume(int c) { if (!c) { fflush(stdout); fprintf(stderr, 
 #else
 #define RT_CHK(p, n) do { } while (0)
 #endif
+/* memmove between two different objects may copy in either direction: lets symex fold the direction test (pointers into distinct objects have no constant order) */
+#ifdef __CPROVER__
+#define RT_DISTINCT_OBJ(a, b) (!__CPROVER_same_object((a), (b)))
+#else
+#define RT_DISTINCT_OBJ(a, b) 0
+#endif
 struct rt_cx_ptr { uint8_t *f0; uint8_t f1; };
 
 /* ---------------- harness interface (see harness/vf.h) */
@@ -52,7 +58,7 @@ static void vf_witness(void) { }
 #ifdef __CPROVER__
 static void vf_out(long v) { }
 #else
-static void vf_out(long v) { printf("OUT %ld\n", v); }
+static void vf_out(long v) { printf("OUT %ld\n", v); fflush(stdout); }   /* flushed like native_rt.c: traces must agree up to a crash */
 #endif
 
 /* ---------------- allocation accounting */
@@ -173,6 +179,7 @@ static void rt_terminate(void) { __CPROVER_assert(0, "rt: std::terminate called"
 static int rt_mutex_lock(void *m) {
   int *st = (int*)m;
   __CPROVER_assert(*st == 0, "rt: std::mutex locked twice by the only thread (self-deadlock)");
+  __CPROVER_assume(*st == 0);   /* the thread never gets past a self-deadlock: report it once, do not explore what cannot run */
   *st = 1; return 0;
 }
 static int rt_mutex_unlock(void *m) {
@@ -206,3 +213,32 @@ void vf_atomic_wait(uint8_t *addr, uint64_t old, uint32_t size) {
   __CPROVER_assume(cur != old);
 }
 void vf_atomic_notify(uint8_t *addr, uint32_t all) { }
+
+/* ---------------- virtual clock (C12). std::chrono::system_clock::now() / clock_gettime read rt_clock_ns. A timed
+   condition-variable wait in the only modelled thread can only end by time-out: it advances the clock to the deadline
+   (never backwards) and reports ETIMEDOUT; a deadline of time_point::max() (or a plain wait, see C11) can never be woken. */
+int64_t rt_clock_ns;
+long rt_clock_waits;          /* number of timed waits performed (an observation for harnesses) */
+long vf_clock_now(void) { return (long)rt_clock_ns; }
+void vf_clock_set(long ns) { rt_clock_ns = ns; }
+long vf_clock_waits(void) { return rt_clock_waits; }
+static int64_t rt_system_clock_now(void) { return rt_clock_ns; }
+struct rt_timespec { int64_t tv_sec; int64_t tv_nsec; };
+static int rt_clock_gettime(long clk, void *ts) {
+  struct rt_timespec *t = (struct rt_timespec*)ts;
+  t->tv_sec = rt_clock_ns / 1000000000; t->tv_nsec = rt_clock_ns % 1000000000; return 0;
+}
+static int rt_cond_timedwait(void *c, void *m, void *ts) {
+  struct rt_timespec *t = (struct rt_timespec*)ts;
+  int *st = (int*)m;
+  __CPROVER_assert(*st == 1, "rt: condition_variable timed wait while the mutex is not locked");
+  if (t->tv_sec >= 9223372036L) {   /* time_point::max() */
+    __CPROVER_assert(0, "rt: condition_variable wait without deadline and no other thread to notify (blocks forever)");
+    __CPROVER_assume(0);
+  }
+  int64_t d = t->tv_sec * 1000000000 + t->tv_nsec;
+  if (d > rt_clock_ns) rt_clock_ns = d;
+  rt_clock_waits++;
+  return 110; /* ETIMEDOUT */
+}
+static int rt_cond_clockwait(void *c, void *m, long clk, void *ts) { return rt_cond_timedwait(c, m, ts); }
